@@ -331,9 +331,9 @@ def ofLexCsv {α} : LexCsv.Outcome α → Outcome α
   | .err => .err
   | .panic => .panic
 
-/-- `utils::parse_csv_row` on `Str`. -/
+/-- `utils::parse_csv_row` on `Str` (repaired tree of finding F18: `parseCsvRow true`). -/
 def csvRow (row : Str) : Outcome (List Str) :=
-  match LexCsv.parseCsvRow (String.ofList row) with
+  match LexCsv.parseCsvRow true (String.ofList row) with
   | .ok cells => .ok (cells.map String.toList)
   | .err => .err
   | .panic => .panic
